@@ -138,20 +138,40 @@ class Prover:
 
     # ---- signs of atoms
     def scan_facts(self):
-        """learn sign facts about uf atoms (Phi > 0, V >= 0, ...) from lemma instances"""
+        """learn sign facts about uf atoms (Phi > 0, V > 0, W >= 0, Gamma >= 0 ...)
+        from lemma / contract instances of the form  subject > 0  /  subject >= 0"""
         if self._facts_scanned:
             return
         self._facts_scanned = True
         for (f, _lvl, subj) in self.facts:
             try:
-                if subj is None or not z3.is_app(subj) or subj.decl().kind() != z3.Z3_OP_UNINTERPRETED:
+                if subj is None or not z3.is_app(subj) or subj.decl().kind() != z3.Z3_OP_UNINTERPRETED or subj.num_args() == 0:
                     continue
-                name = subj.decl().name()
-                if name in ("Phi", "phi"):
-                    p = self.N.norm(subj)
-                    s = p.single()
-                    if s and len(s[0]) == 1 and s[1] == 1:
-                        self.uf_sign[s[0][0][0]] = "pos"
+                if subj.decl().name() in ("sqrt", "exp"):
+                    continue
+                sg = None
+                stack = [f]
+                while stack:
+                    e = stack.pop()
+                    if z3.is_and(e):
+                        stack.extend(e.children())
+                        continue
+                    if z3.is_app(e) and e.num_args() == 2:
+                        a, b = e.children()
+                        k = e.decl().kind()
+                        if z3.eq(a, subj) and z3.is_rational_value(b) and b.numerator_as_long() >= 0:
+                            if k == z3.Z3_OP_GT or (k == z3.Z3_OP_GE and b.numerator_as_long() > 0):
+                                sg = "pos"
+                            elif k == z3.Z3_OP_GE and sg is None:
+                                sg = "nonneg"
+                if sg is None:
+                    continue
+                p = self.N.norm(subj)
+                s1 = p.single()
+                if s1 and len(s1[0]) == 1 and s1[1] == 1 and s1[0][0][1] == 1:
+                    a = s1[0][0][0]
+                    if self.uf_sign.get(a) != "pos":
+                        self.uf_sign[a] = sg
             except Unsupported:
                 continue
 
@@ -272,17 +292,32 @@ class Prover:
             defs, cone = self.atom_defs(need)
             names = {self.var(x).decl().name() for x in cone}
 
-            def rel(f):
-                return bool(_consts(f) & names)
-            sel = [h for h in hyps + facts if rel(h)]
-            # the selected hypotheses may mention further atoms: add their definitions
+            # relevance closure: a hypothesis/fact is kept if it mentions an atom of
+            # the goal's cone; the atoms it mentions then join the cone (fixpoint)
+            cand = [(h, _consts(h)) for h in hyps + facts]
+            sel = []
+            chosen = set()
+            grow = True
+            rounds = 0
+            while grow and rounds < 6:
+                grow = False
+                rounds += 1
+                for idx, (h, cs) in enumerate(cand):
+                    if idx in chosen:
+                        continue
+                    if cs & names:
+                        chosen.add(idx)
+                        sel.append(h)
+                        new = cs - names
+                        if new:
+                            names |= new
+                            grow = True
+            inv_names = {self.var(i).decl().name(): i for i in list(self._var)}
             more = set()
-            inv_names = {self.var(i).decl().name(): i for i in range(len(self.N.atoms.info)) if i in self._var}
-            for h in sel:
-                for n in _consts(h):
-                    i = inv_names.get(n)
-                    if i is not None and i not in cone:
-                        more.add(i)
+            for n_ in names:
+                i = inv_names.get(n_)
+                if i is not None and i not in cone:
+                    more.add(i)
             defs2, _ = self.atom_defs(more)
             r, be, m, why = tactics.check_sat(sel + defs + defs2 + [z3.Not(g)], timeout_ms=self.timeout_ms)
             if r == "unsat":
